@@ -415,5 +415,13 @@ theorem xzDecompress_safe (rd : Rd) :
   refine MSafe_pure.mpr ?_
   omega
 
+theorem xzDecompress_no_panic (rd : Rd) (snk : Sink) (w : String) :
+    (xzDecompress rd snk).2 ≠ .error (.panic w) :=
+  (xzDecompress_safe rd snk).ne_panic w
+
+theorem xzDecompress_terminates (rd : Rd) (snk : Sink) :
+    (xzDecompress rd snk).2 ≠ .error .fuel :=
+  (xzDecompress_safe rd snk).ne_fuel
+
 end Safety
 end Lzma
